@@ -356,6 +356,61 @@ def run_r8(ctx, rule):
         rule.check(nid in allowed, "%s/calls-flush_defer_err" % nid, "the buffer is flushed from the cold write path, Write::flush and drop only (%s)" % short(nid), f.loc(bb))
 
 
+def run_r9(ctx, rule):
+    """`buf_write_ptr(len)` hands out a pointer when `old_len + len <= capacity`; `advance_unchecked(n)` is then called with
+    n <= len.  Its debug assertion must not be stronger than that contract: an assertion that fails for an advance
+    that fills the buffer exactly (`<` for `<=`) panics inside `ascii_digits` in every build with debug assertions.
+    Decided by affine path execution: every condition of advance_unchecked whose failure reaches a panic is implied
+    by len(buf) + n <= capacity(buf); and the new length it sets is len(buf) + n."""
+    from .aff import PathExec, Aff
+    facts = ctx.facts
+    f = wfn(facts, DW + "advance_unchecked")
+    c = cfg(f)
+    npan = 0
+    okset = False
+    for p, cut in c.paths(limit=200):
+        ex = PathExec(facts, f)
+        st = ex.run_path(p)
+        if st.infeasible:
+            continue
+        L = K = None
+        for e in st.events:
+            if e[0] == "call":
+                m = e[2][0].rsplit("::", 1)[-1]
+                if m == "len" and "Vec" in e[2][0] and L is None:
+                    L = Aff.sym("call@%d" % e[1])
+                if m == "capacity" and "Vec" in e[2][0] and K is None:
+                    K = Aff.sym("call@%d" % e[1])
+        last = f.term(p[-1])
+        ends_in_panic = last["k"] == "call" and norm(util.cname(last)).startswith("core::panicking")
+        if ends_in_panic and not any(e[0] == "assert" for e in st.events[-1:]):
+            # the branch that led here
+            br = [e for e in st.events if e[0] == "branch" and isinstance(e[2][0], tuple) and e[2][0][0] == "cmp"]
+            if not br or L is None:
+                rule.bad("advance_unchecked/assertion-form", "an assertion of advance_unchecked could not be read as a comparison of linear forms", f.loc(p[-1]), kind="unmodelled-idiom")
+                continue
+            npan += 1
+            d, taken = br[-1][2]
+            op, x, y = d[1], d[2], d[3]
+            holds_when = taken == ("eq", 0)  # the panic is on the false edge: the assertion is `x op y`
+            n = Aff.sym("arg2")
+            ok = False
+            if isinstance(x, Aff) and isinstance(y, Aff) and K is not None and holds_when:
+                contract = L + n - K  # <= 0
+                lhs = {"Le": x - y, "Lt": x - y + Aff(1), "Ge": y - x, "Gt": y - x + Aff(1)}.get(op)
+                if lhs is not None:
+                    diff = lhs - contract
+                    ok = diff.is_const() and diff.c <= 0
+            rule.check(ok, "advance_unchecked/assertion-not-stronger-than-contract", "the debug assertion of advance_unchecked holds whenever old_len + n <= capacity (what buf_write_ptr established), also when the advance fills the buffer exactly  [%s %s %s]" % (x, op, y), f.loc(p[-1]))
+        if last["k"] == "return":
+            for e in st.events:
+                if e[0] == "call" and e[2][0].endswith("Vec::set_len") and L is not None and len(e[2][1]) > 1:
+                    okset = e[2][1][1] == L + Aff.sym("arg2")
+    rule.check(okset, "advance_unchecked/new-length", "advance_unchecked(n) sets the length to old_len + n", f.loc())
+    if npan == 0:
+        rule.note("debug_assertions", "no assertion with a panic edge in this configuration")
+
+
 def run(ctx):
     r1 = ctx.rule("C11-R1", "the sink receives only the whole buffer (flush) or the caller's oversized slice (direct), through write_all, only while no error is parked, and its error is parked", floor=5)
     run_r1(ctx, r1)
@@ -369,6 +424,8 @@ def run(ctx):
     run_r5(ctx, r5)
     r6 = ctx.rule("C11-R6", "integer fast path: pointer only with reserved space, advance by the written length, cold arm through the buffered path", floor=6)
     run_r6(ctx, r6)
+    r9 = ctx.rule("C11-R9", "advance_unchecked: its debug assertion is implied by the contract buf_write_ptr establishes (old_len + n <= capacity), and it sets the length to old_len + n", floor=1)
+    run_r9(ctx, r9)
     r8 = ctx.rule("C11-R8", "the answer of every call that takes the parked error out (check_io_error, Write::flush) is handed on or examined, never dropped; silent flushes only from the cold write path, Write::flush and drop", floor=5)
     run_r8(ctx, r8)
     from .c14 import run_r3 as c14_r3
